@@ -706,7 +706,8 @@ class Model:
         """
         if (cache := self._cache) is None:
             cache = self._create_cache()
-        return cache.base_parameter_values
+        # a copy: the caller may do with the result what it likes, the cache stays intact
+        return dict(cache.base_parameter_values)
 
     def get_parameter_names(self) -> list[str]:
         """Retrieve the names of the parameters.
@@ -1086,7 +1087,8 @@ class Model:
         """
         if (cache := self._cache) is None:
             cache = self._create_cache()
-        return cache.initial_conditions
+        # a copy: the caller may do with the result what it likes, the cache stays intact
+        return dict(cache.initial_conditions)
 
     def get_variable_names(self) -> list[str]:
         """Retrieve the names of all variables.
@@ -1428,7 +1430,7 @@ class Model:
 
         """
         self._insert_id(name=name, ctx="derived")
-        self._derived[name] = Derived(fn=fn, args=args, unit=unit)
+        self._derived[name] = Derived(fn=fn, args=list(args), unit=unit)
         return self
 
     def get_derived_parameter_names(self) -> list[str]:
@@ -1485,7 +1487,7 @@ class Model:
         if fn is not None:
             der.fn = fn
         if args is not None:
-            der.args = args
+            der.args = list(args)
         if unit is not None:
             der.unit = unit
         return self
@@ -1664,7 +1666,7 @@ class Model:
         self._reactions[name] = Reaction(
             fn=fn,
             stoichiometry=stoich,
-            args=args,
+            args=list(args),
             unit=unit,
         )
         return self
@@ -1721,7 +1723,7 @@ class Model:
                 for k, v in stoichiometry.items()
             }
             rxn.stoichiometry = stoich
-        rxn.args = rxn.args if args is None else args
+        rxn.args = rxn.args if args is None else list(args)
         rxn.unit = rxn.unit if unit is None else unit
         return self
 
@@ -1805,7 +1807,7 @@ class Model:
 
         """
         self._insert_id(name=name, ctx="readout")
-        self._readouts[name] = Readout(fn=fn, args=args, unit=unit)
+        self._readouts[name] = Readout(fn=fn, args=list(args), unit=unit)
         return self
 
     def get_readout_names(self) -> list[str]:
@@ -1888,12 +1890,15 @@ class Model:
             raise
 
         # Update surrogate if necessary
+        # (copies: the lists and mappings stay the caller's own)
         if args is not None:
-            surrogate.args = args
+            surrogate.args = list(args)
         if outputs is not None:
-            surrogate.outputs = outputs
+            surrogate.outputs = list(outputs)
         if stoichiometries is not None:
-            surrogate.stoichiometries = stoichiometries
+            surrogate.stoichiometries = {
+                k: dict(v) for k, v in stoichiometries.items()
+            }
 
         self._surrogates[name] = surrogate
         return self
@@ -1942,12 +1947,15 @@ class Model:
             raise
 
         # Update existing / passed surrogate (other args always take precendece)
+        # (copies: the lists and mappings stay the caller's own)
         if args is not None:
-            surrogate.args = args
+            surrogate.args = list(args)
         if outputs is not None:
-            surrogate.outputs = outputs
+            surrogate.outputs = list(outputs)
         if stoichiometries is not None:
-            surrogate.stoichiometries = stoichiometries
+            surrogate.stoichiometries = {
+                k: dict(v) for k, v in stoichiometries.items()
+            }
 
         self._surrogates[name] = surrogate
         return self
